@@ -28,8 +28,11 @@ func lookupFlow[T any](urlTree *URLTree[T], url string) lookupFlowNodeResult[T] 
 	var part urlPart
 	for index, part = range splitURL {
 		log.Trace().Msgf("lookupFlowNodeResult::Looking up part %v", part)
-		if currentNode.WildcardChild != nil && currentNode.WildcardChild.hasValue() {
-			flows = append(flows, *currentNode.WildcardChild.Value)
+		// a path wildcard ("host.com/*") does not extend the host: it is not collected for a
+		// further host label ("host.com.other/..."); a bare "*" at the root accepts any URL
+		if wildcardChild := currentNode.WildcardChild; wildcardChild != nil && wildcardChild.hasValue() &&
+			(currentNode == urlTree.Root || wildcardChild.IsPartOfHost || !part.IsPartOfHost) {
+			flows = append(flows, *wildcardChild.Value)
 		}
 
 		child, found := currentNode.ConstantChildren[part.Value]
